@@ -17,7 +17,7 @@ func shortPkg(p string) string {
 }
 
 func (e *Engine) newVC(name string) *VC {
-	return &VC{eng: e, Name: name, counts: map[string]int{}, Assumed: map[string]bool{}}
+	return &VC{eng: e, Name: name, counts: map[string]int{}, Assumed: map[string]bool{}, consts: map[string]string{}}
 }
 
 // verifyFunc generates the VCs of fn against its contract fc (one per split case).
@@ -101,8 +101,6 @@ func (e *Engine) runVC(vc *VC, fn *ssa.Function, fc *FuncContract, splitVals []i
 	vc.entryH8 = st.H["H8"]
 	vc.assume(and(app("bvugt", st.H["next"], bvLit(refBits, 0x10000)), app("bvult", st.H["next"], bvLit(refBits, 1<<29))))
 	// streams and sinks have not failed before the call
-	st.H["Sfail"] = "((as const (Array (_ BitVec 32) Bool)) false)"
-	st.H["Wfail"] = "((as const (Array (_ BitVec 32) Bool)) false)"
 	vc.note("standing: no stream or sink has failed before the call (sticky failure flags start false)")
 	vc.note("standing: stream positions, lengths and offsets are below 2^40; fewer than 2^29 objects exist")
 	vc.entry = st.clone()
@@ -118,7 +116,9 @@ func (e *Engine) runVC(vc *VC, fn *ssa.Function, fc *FuncContract, splitVals []i
 		case *types.Pointer:
 			sv.NonNil = true
 			vc.assume(not(eq(sv.C[0], bvLit(refBits, 0))))
-			vc.assume(eq(sv.C[1], bvLit(64, 0)))
+			// pointer parameters point at the start of their object (behaviour is
+			// uniform in the cell offset, so this loses no generality)
+			sv.C[1] = bvLit(64, 0)
 		case *types.Interface:
 			if !fc.mayNil(nameAt(names, i)) {
 				vc.assume(not(eq(sv.C[0], bvLit(tidBits, 0))))
@@ -157,10 +157,18 @@ func (e *Engine) runVC(vc *VC, fn *ssa.Function, fc *FuncContract, splitVals []i
 	env := vc.bindEnv(fc, fn, params, nil, st, st)
 	for i, sp := range fc.Splits {
 		v := env.eval(sp.E)
-		vc.assume(eq(v.term(), bvLit(v.sort().Bits(), splitVals[i])))
+		lit := bvLit(v.sort().Bits(), splitVals[i])
+		vc.assume(eq(v.term(), lit))
+		if strings.HasPrefix(v.term(), "(select (select ") {
+			vc.consts[v.term()] = lit
+		}
 	}
 	for _, r := range fc.Requires {
 		vc.assume(env.evalBool(r.E))
+	}
+	for _, r := range fc.Requires {
+		// (after assuming them unsimplified) learn  location == constant  facts
+		env.learnConsts(r.E)
 	}
 	vc.cover("cover-entry", "preconditions of "+fc.Key+" are satisfiable", "true")
 
@@ -207,7 +215,7 @@ func (e *Engine) runVC(vc *VC, fn *ssa.Function, fc *FuncContract, splitVals []i
 	}
 	for i, c := range fc.Ensures {
 		kind := "ensures"
-		o := vc.obligeNoAssume(kind, fmt.Sprintf("postcondition %d of %s: %s", i, fc.Key, c.Text), retReach, post.evalBool(c.E), c.Tags...)
+		o := vc.obligeNoAssume(kind, fmt.Sprintf("postcondition %d of %s: %s", i, fc.Key, c.Text), retReach, post.evalGoal(c.E), c.Tags...)
 		if o != nil && c.Label != "" {
 			o.Name = fmt.Sprintf("%s::ensures[%s]", vc.Name, c.Label)
 		}
@@ -274,7 +282,7 @@ func (e *Engine) verifyLemma(lm *Lemma) (vc *VC, err error) {
 		}
 	}()
 	st := vc.freshState("in")
-	env := &Env{vc: vc, names: map[string]*SV{}, lets: map[string]Expr{}, st: st, old: st, what: "lemma " + lm.Name}
+	env := &Env{vc: vc, names: map[string]*SV{}, lets: map[string]Expr{}, st: st, old: st, what: "lemma " + lm.Name, pkgPath: lm.Pkg}
 	for _, p := range lm.Params {
 		var sv *SV
 		switch p.Sort {
@@ -303,7 +311,7 @@ func (e *Engine) verifyLemma(lm *Lemma) (vc *VC, err error) {
 		}
 		env.names[p.Name] = sv
 	}
-	o := vc.obligeNoAssume("lemma", "lemma "+lm.Name+": "+lm.Body.Text, "true", env.evalBool(lm.Body.E), lm.Tags...)
+	o := vc.obligeNoAssume("lemma", "lemma "+lm.Name+": "+lm.Body.Text, "true", env.evalGoal(lm.Body.E), lm.Tags...)
 	o.Name = "lemma " + lm.Name
 	// vacuity: the antecedent of an implication lemma must be satisfiable
 	if b, ok := lm.Body.E.(Binary); ok && b.Op == "==>" {
